@@ -133,9 +133,10 @@ func baseInvalid(b int) []byte {
 // the exported container struct types - independently of the add() switches.
 
 type Slot struct {
-	Name string `json:"name"`
-	M    int    `json:"m"`
-	List int    `json:"list"`
+	Name   string `json:"name"`
+	M      int    `json:"m"`
+	List   int    `json:"list"`
+	GoType string `json:"gotype"` // name of the member's message struct
 }
 
 type Schema struct {
@@ -209,7 +210,7 @@ func exportSchema() *Schema {
 				ft = ft.Elem()
 			}
 			m := fit.VerifGlobalMesgNum(ft)
-			st.Slots = append(st.Slots, Slot{Name: sf.Name, M: int(m), List: list})
+			st.Slots = append(st.Slots, Slot{Name: sf.Name, M: int(m), List: list, GoType: ft.Name()})
 		}
 		s.Types = append(s.Types, st)
 	}
